@@ -18,7 +18,7 @@ def close_enough(a, b, dtype):
 
 def search(ck, tier, seed):
     exact = inexact = 0
-    for e in catalogue.entries(tier):
+    for e in catalogue.entries(tier) + catalogue.boundary_entries():
         t = attempt(catalogue.build, e, seed, torch.float64)
         if t[0] != "ok":
             continue
